@@ -142,6 +142,11 @@ MUTANTS = {
 """, "caught"),
         ("seen-keyed-by-prefix", "tatsu/packetz/queue.py", "                if packet.id not in self._seen:\n                    self._seen.add(packet.id)", "                if packet.id[:8] not in self._seen:\n                    self._seen.add(packet.id[:8])", "caught"),
         ("compact-dict-keys-too", "tatsu/packetz/compact.py", "        return {k: compact_value(v) for k, v in data.items()}", "        return {rle_encode(k): compact_value(v) for k, v in data.items()}", "caught"),
+        ("blank-line-ends-read", "tatsu/packetz/queue.py", """                if not raw.endswith(b"\\n"):
+                    break
+""", """                if not raw.endswith(b"\\n") or not raw.strip():
+                    break
+""", "caught"),
         # negative controls
         ("NC-told-min", "tatsu/packetz/queue.py", "self._told = max(q.tell(), self._told)", "self._told = min(q.tell(), self._told)", "quiet"),
         ("no-seen-dedupe", "tatsu/packetz/queue.py", "                if packet.id not in self._seen:\n                    self._seen.add(packet.id)\n                    yield packet", "                if True:\n                    yield packet", "caught"),
